@@ -127,7 +127,7 @@ ContentCases == {c \in Contents : WellFormedContent(c)}
 Versions == {"1.0", "1.1"}
 SidShapes == {"1", "max", "zero", "toobig", "negative", "word", "empty", "missing", "dup"}
 SidValid(s) == s \in {"1", "max"}
-HelloShapes == {"ok", "nocaps", "wrongns", "truncated", "notxml"}
+HelloShapes == {"ok", "nocaps", "wrongns", "truncated", "notxml", "trailing-text", "two-roots", "trailing-reply", "stray-end"}
 VMax(S) == IF "1.1" \in S THEN "1.1" ELSE "1.0"
 ShouldEstablish(base, sid, shape, clientBase) ==
   shape = "ok" /\ SidValid(sid) /\ (base \cap clientBase) # {}
